@@ -1,0 +1,54 @@
+//go:build verif
+// +build verif
+
+// Verification hook (C16): exports of the VRF qualification rule so that an
+// external harness can call the real validateProve / calQn. Add-only; compiled
+// only with -tags verif.
+package logical
+
+import (
+	"math/big"
+
+	"com.tuntun.rangers/node/src/consensus/model"
+	"com.tuntun.rangers/node/src/consensus/vrf"
+	"com.tuntun.rangers/node/src/middleware/log"
+	"com.tuntun.rangers/node/src/middleware/types"
+)
+
+// VerifC16InitLoggers gives the package the std logger validateProve writes to
+// (the node does this in InitConsensus), so a nil-logger panic is never
+// mistaken for a finding.
+func VerifC16InitLoggers() {
+	if stdLogger == nil {
+		stdLogger = log.GetLoggerByIndex(log.StdConsensusLogConfig, "verif")
+	}
+	if consensusLogger == nil {
+		consensusLogger = log.GetLoggerByIndex(log.ConsensusLogConfig, "verif")
+	}
+}
+
+func VerifC16ValidateProve(prove []byte, height, workingMiners, totalStake uint64) (bool, uint64) {
+	return validateProve(vrf.VRFProve(prove), height, workingMiners, totalStake)
+}
+
+func VerifC16CalQn(valueRatio, stakeRatio *big.Rat) uint64 { return calQn(valueRatio, stakeRatio) }
+
+func VerifC16CalcStakeRatio(difficulty, totalStake uint64) *big.Rat {
+	return calcStakeRatio(difficulty, totalStake)
+}
+
+func VerifC16CalcVrfValueRatio(prove []byte) *big.Rat { return calcVrfValueRatio(vrf.VRFProve(prove)) }
+
+func VerifC16CalcPotentialProposal(totalStake uint64) uint64 {
+	return calcPotentialProposal(totalStake, model.Param)
+}
+
+func VerifC16TryZeroPadding(pi []byte) []byte { return tryZeroPadding(vrf.VRFProve(pi)) }
+
+func VerifC16GenVrfMsg(random []byte, delta int) []byte { return genVrfMsg(random, delta) }
+
+// VerifC16VerifyBlockVRF runs the real header check (VRF verify on the
+// big-integer prove value, then the qualification rule and the TotalQN link).
+func VerifC16VerifyBlockVRF(bh, preBH *types.BlockHeader, castor *model.MinerInfo, totalStake uint64) (bool, error) {
+	return verifyBlockVRF(bh, preBH, castor, totalStake)
+}
